@@ -22,6 +22,7 @@ class JointDegreeSplitDegree(JointDegree):
         self.create_jdd()
 
     def create_jdd(self) -> None:
+        self._jdd = {}
         for k in range(self._low_high_degree_bound[0], self._low_high_degree_bound[1]):
             self.resolve_degree(k, self._fp(k))
         self.normalise_jdd()
@@ -61,8 +62,6 @@ class JointDegreeSplitDegree(JointDegree):
         :param k: overall degree
         :param prob_overall_k: float value
         """
-        self._jdd = {}
-
         # get a list of valid joint degrees
         valid_tuples: list = list(self.get_valid_joint_degrees(k, len(self._probs)))
 
